@@ -458,6 +458,7 @@ func (p *RtmpPublisher) Close() { p.RC.Close() }
 
 type StubBehaviour struct {
 	RefuseConnect   bool          // close right after accept
+	Hang            bool          // accept and never answer (the peer's handshake stays in flight)
 	CloseAfterConn  bool          // close after the connect command
 	WithholdStatus  chan struct{} // if non-nil, onStatus for publish/play is sent only after this is closed
 	PlayMsgs        []RtmpMsg     // for play: messages to send after Play.Start
@@ -557,6 +558,11 @@ func (st *RtmpStub) serve(s *StubSession, b StubBehaviour) {
 		s.Hist.Finish(nil)
 	}()
 	if b.RefuseConnect {
+		return
+	}
+	if b.Hang {
+		// accept the TCP connection and never answer the handshake: the peer's attempt stays in flight
+		io.Copy(io.Discard, s.RC.Conn)
 		return
 	}
 	rc, err := AcceptRtmp(s.RC.Conn, 10*time.Second)
